@@ -152,6 +152,17 @@ CLAIMED = {
         "property-based testing (Hypothesis) with scripted random streams: metamorphic seed-independence + tiebreak-record validity predicates",
         "3/C10",
     ),
+    "C08": (
+        "Metamorphic: each generated (rule, profile, configuration) is paired with a transformed copy (candidate "
+        "bijection onto names with different sort/hash order, ballot permutation, splitting into identical ballots "
+        "whose weights add up, merging identical ballots, permuted candidate list); every round of the transformed "
+        "run, the scoring utilities and the pairwise graph must equal the renamed original, exception types "
+        "included, whenever neither run drew a random number.  Hash seed: a batch of generated cases is evaluated in "
+        "fresh interpreters with PYTHONHASHSEED 1, 2, 3 and compared with the parent's serialised outcomes (seed 0).",
+        "Pairs with a random draw or a recorded tiebreak are skipped and counted; four hash seeds are sampled, not all.",
+        "metamorphic property-based testing (Hypothesis) + differential runs across PYTHONHASHSEED values in fresh interpreters",
+        "3/C08",
+    ),
 }
 
 PENDING_REASON = "check not built yet in this session; the design (DESIGN.md section 3) claims it and it will be registered once it is quiet on the unchanged tree and catches its mutants"
